@@ -9,7 +9,7 @@ import run
 ns = {}
 exec(open(pf).read(), ns)
 MULTI = ns["MULTI"]
-run.SCRATCH = "/tmp/wt/probem-%d" % os.getpid()
+run.SCRATCH = "/tmp/wtpriv/probem-%d" % os.getpid()
 q = queue.Queue()
 for p in MULTI:
     q.put(p)
